@@ -130,12 +130,92 @@ def search():
     yield n, None, None
 
 
+def search_actions():
+    """DT-2 / AR-6 on the real provider (thread not started, fake socket): messages 1..3 of an association whose
+    accepted contexts were bound after construction, as negotiation does; memory and file storage"""
+    import threading
+    from pynetdicom2 import dulprovider
+    threading.Thread.start = lambda self: None
+
+    class Sock(object):
+        def __init__(self):
+            self.sent = []
+
+        def sendall(self, b):
+            self.sent.append(b)
+
+        def close(self):
+            pass
+    n = 0
+    ts = uid.ImplicitVRLittleEndian
+    sop = '1.2.840.10008.5.1.4.1.1.2'
+    for action, state in (('dt_2', fsm.States.STA_6), ('ar_6', fsm.States.STA_7)):
+        for use_file in (False, True):
+            for max_len in (16384, 40):
+                n += 1
+                ae = object.__new__(applicationentity.AEBase)
+                store = frozenset([sop]) if use_file else frozenset()
+                prov = dulprovider.DULServiceProvider(store, ae.get_file, Sock())
+                prov.accepted_contexts = {5: asceprovider.PContextDef(5, sop, ts)}
+                sm = prov.state_machine
+                f = []
+                for k in range(3):
+                    data = dataset_bytes(10 + k)
+                    msg = make_message(dm.CStoreRQMessage, data)
+                    msg.sop_class_uid = sop
+                    msg.set_length()
+                    pdus = list(msg.encode(5, max_len))
+                    for i, one in enumerate(pdus):
+                        sm.current_state = state
+                        prov.primitive = one
+                        nxt = getattr(sm, action)()
+                        done = not prov.to_service_user.empty()
+                        if nxt != state:
+                            f.append('decoder-works-on-the-negotiated-contexts (message %d, PDU %d of %d: the association '
+                                     'was aborted, state %r)' % (k + 1, i + 1, len(pdus), nxt))
+                            break
+                        if done != (i == len(pdus) - 1):
+                            f.append('completed-message-handed-over-once (message %d, PDU %d of %d)' % (k + 1, i + 1, len(pdus)))
+                            break
+                    if f:
+                        break
+                    got, pc = prov.to_service_user.get()
+                    if sm.dimse_decoder is not None:
+                        f.append('decoder-dropped-after-completion')
+                    body = got.data_set
+                    if use_file:
+                        body.seek(0)
+                        whole = body.read()
+                        body.close()
+                        if not whole.endswith(data) or whole[128:132] != b'DICM':
+                            f.append('decoder-has-the-file-storage-configuration')
+                    elif body != data:
+                        f.append('decoder-works-on-the-negotiated-contexts (data set differs)')
+                    if pc != 5 or type(got).__name__ != 'CStoreRQMessage':
+                        f.append('pdu-goes-to-exactly-one-decoder')
+                if f:
+                    yield n, {'action': action, 'file_storage': use_file, 'max_pdu_length': max_len}, f
+    yield n, None, None
+
+
 def main():
     req = json.loads(sys.stdin.read() or '{}')
     name = req.get('obligation', '')
     clause = name.split('#')[-1].split('@')[0].split(':')[-1]
     failures, related, n = [], [], 0
-    for n, inp, f in search():
+    def both():
+        total = 0
+        for m, i, f in search():
+            if i is not None:
+                yield m, i, f
+            total = m
+        for m, i, f in search_actions():
+            if i is not None:
+                yield total + m, i, f
+            else:
+                yield total + m, None, None
+    gen = search_actions() if 'StateMachine' in name else (both() if not name else search())
+    for n, inp, f in gen:
         if inp is None:
             break
         rec = {'input': inp, 'failed_clauses': sorted(set(f))}
